@@ -322,6 +322,24 @@ func (C20) Gen(r *core.Rng, tier string, emit func(string)) {
 		}
 		emit(fmt.Sprintf("sync %d %d %s:%d %s %s # %s", 1+r.Intn(3), dry, fk, fi, hexs(a), hexs(b), kind))
 	}
+	// directories larger than the first 16 KiB: the leaf section is a download of its own (and so is its failure)
+	nBig := 1
+	if tier == "thorough" {
+		nBig = 12
+	}
+	for i := 0; i < nBig; i++ {
+		ta := randTiles(r, 4500+r.Intn(1500), 3)
+		tb, kind := mutateTiles(r, ta, 3)
+		if len(tb) == 0 {
+			tb = ta
+		}
+		a := clusteredFromTiles(r, ta, true, 1, 400+r.Intn(300), 10).bytes
+		b := clusteredFromTiles(r, tb, true, 1, 400+r.Intn(300), 10).bytes
+		emit(fmt.Sprintf("sync 20 0 - %s %s # bigdir:%s", hexs(a), hexs(b), kind))
+		for fi := 2; fi <= 6; fi++ {
+			emit(fmt.Sprintf("sync 20 0 %s:%d %s %s # bigdir:%s", []string{"s500", "drop", "short", "s404"}[(i+fi)%4], fi, hexs(a), hexs(b), kind))
+		}
+	}
 	// the .sync download itself is cut short (inside the JSON line) while the remote archive is far larger than
 	// the 16 KiB that sync copies wholesale: a sync that "succeeds" here has lost the tile data
 	for i := 0; i < 3; i++ {
@@ -469,7 +487,20 @@ var reChunks = regexp.MustCompile(`need (\d+) chunks`)
 
 // runMakesync runs the real Makesync in a child process (a panic in one of its goroutines cannot be
 // recovered in-process) and classifies the outcome.
+// staleSyncFile: history — an earlier makesync of ANOTHER archive under this name left its .sync behind, and the
+// archive that replaced it carries an older modification time (mv, cp -p, rsync -t, a rollback)
+func staleSyncFile(path string) {
+	n := <-staleCounter
+	staleCounter <- n + 1
+	if n%2 == 0 {
+		os.WriteFile(path+".sync", []byte("{\"stale\":true}\n0\t0\t0\t1\t0000000000000000\n"), 0o644)
+		past := time.Now().Add(-2 * time.Hour)
+		os.Chtimes(path, past, past)
+	}
+}
+
 func runMakesync(cli bool, path string, kb int) string {
+	staleSyncFile(path)
 	if cli {
 		return cliMakesync(path, kb)
 	}
